@@ -673,6 +673,8 @@ func (fr *frame) tuple(x ssa.Value) []string {
 }
 
 func (v *vc) havocAll(st *state) {
+	old := st.clone()
+	defer v.restorePreserved(st, old)
 	st.epoch = v.newEpoch(true, nil)
 	st.heaps = map[string]string{}
 	nt := v.fresh("top")
@@ -689,6 +691,12 @@ func (v *vc) execAlloc(fr *frame, st *state, in *ssa.Alloc) {
 			ref := v.alloc(st, in.Name())
 			v.storeStruct(st, ref, et, v.sc.zero(et))
 			fr.vals[in] = ref
+			var hs []string
+			for i := 0; i < u.NumFields(); i++ {
+				h, _ := v.fieldHeap(et, i)
+				hs = append(hs, h)
+			}
+			v.notePreserved(st, in, hs, ref)
 			return
 		}
 	case *types.Array:
@@ -715,6 +723,8 @@ func (v *vc) execAlloc(fr *frame, st *state, in *ssa.Alloc) {
 		a := &addr{kind: aCell, base: ref, typ: et}
 		v.store(st, a, v.sc.zero(et))
 		fr.vals[in] = ref
+		h, _ := v.cellHeap(et)
+		v.notePreserved(st, in, []string{h}, ref)
 		return
 	}
 	k := v.localKey(fr, in)
